@@ -425,6 +425,18 @@ class C05(common.Prop):
             hl = rd.read_offset
             PoseHeaderCache.clear_cache()
             d = pg.dump_pose(Pose.read(bytes(f)))
+            # the Python reader's answer must be THE answer for this file: the same after reads of the same file and of a file
+            # whose header differs in the version word only (JavaScript is stateless; a history-dependent Python reading
+            # disagrees with it in some process)
+            for st in ("same", "twin"):
+                pg.set_memo(st, same_bytes=f)
+                try:
+                    d2 = pg.dump_pose(Pose.read(bytes(f)))
+                except Exception as e:
+                    d2 = {"err": type(e).__name__}
+                if d2 != d:
+                    d["_memo_dep"] = (st, [k for k in d if d2.get(k) != d[k]][:4])
+                    break
             d["headerLength"] = hl
             return d
         except Exception as e:
@@ -450,6 +462,11 @@ class C05(common.Prop):
         if vclass is None or vclass != kind:
             return None                       # the property speaks about v0.0 / v0.1 / v0.2 files (a body laid out for another
                                               # version than the header says is not a file of the reference encoders)
+        if py.get("_memo_dep"):
+            st, fields = py["_memo_dep"]
+            return {"what": "Pose.read of this file returns different %s after an earlier read (%s): the JavaScript reader cannot agree "
+                            "with both" % (fields, "the same file" if st == "same" else "a file with the same header and another version word"),
+                    "fields": ["python-history-" + st]}
         js = case.get("_jsc")
         if js is None:
             return {"what": "Pose.read accepts the file, parsePose throws: %s" % (case.get("_js") or {}).get("err"), "fields": ["raises"]}
